@@ -289,7 +289,7 @@ func (m *machine) sibling(t *rapid.T) {
 		signer = k
 		sib.Header.Timestamp = n.Slot.GetSlotTime(n.Cfg.SlotsBehind) + 1
 		sib.Header.GeneratorAddress = k.Addr
-		sib.Header.MaxHeightGenerated = n.LastGeneratedHeight(k.Addr)
+		sib.Header.MaxHeightGenerated = n.LastGeneratedHeightBelow(k.Addr, tip.Header.Height)
 		if bytes.Equal(k.Addr, tip.Header.GeneratorAddress) {
 			kind = "double-forging"
 			sib.Header.MaxHeightGenerated = tip.Header.MaxHeightGenerated
